@@ -571,12 +571,57 @@ def opRayGeom (args : List String) : Option String := do
   | _ => none
 end RayGeomOps
 
+/-! ### C04 interface coefficients (complex and real doubles) -/
+section IfaceOps
+open Arim.Iface
+
+def cfTrig : CTrig CF := { sin := CF.sin, cos := CF.cos, asin := CF.asin, ofNat := fun n => CF.ofReal n.toFloat }
+def rfTrig : CTrig Float := { sin := Float.sin, cos := Float.cos, asin := Float.asin, ofNat := fun n => n.toFloat }
+def showCF (z : CF) : String := showFloat z.re ++ "," ++ showFloat z.im
+def mode? (s : String) : Option Mode := if s == "L" then some .L else if s == "T" then some .T else none
+def kind? (s : String) : Option Kind := if s == "fluid_solid" then some .fluidSolid else if s == "solid_fluid" then some .solidFluid else none
+
+def ifaceRun {K : Type} [Add K] [Sub K] [Mul K] [Div K] [Neg K] (t : CTrig K) (lift : Float → K)
+    (ang? : String → String → Option K) (shw : K → String) (args : List String) : Option String := do
+  match args with
+  | fn :: rhoF :: rhoS :: cF :: cL :: cT :: are :: aim :: rest =>
+    let rhoF ← float? rhoF; let rhoS ← float? rhoS; let cF ← float? cF; let cL ← float? cL; let cT ← float? cT
+    let a ← ang? are aim
+    let m : Media K := { rhoF := lift rhoF, rhoS := lift rhoS, cF := lift cF, cL := lift cL, cT := lift cT }
+    let sh3 := fun (r : K × K × K) => shw r.1 ++ ";" ++ shw r.2.1 ++ ";" ++ shw r.2.2
+    match fn, rest with
+    | "fs", [] =>
+      let aL := snell t a m.cF m.cL; let aT := snell t a m.cF m.cT
+      pure (sh3 (fluidSolid t m a aL aT) ++ ";" ++ shw aL ++ ";" ++ shw aT)
+    | "slf", [] =>
+      let aF := snell t a m.cL m.cF; let aT := snell t a m.cL m.cT
+      pure (sh3 (solidLFluid t m aF a aT) ++ ";" ++ shw aF ++ ";" ++ shw aT)
+    | "stf", [] =>
+      let aF := snell t a m.cT m.cF; let aL := snell t a m.cT m.cL
+      pure (sh3 (solidTFluid t m aF aL a) ++ ";" ++ shw aF ++ ";" ++ shw aL)
+    | "trans", [k, mi, mo, disp] =>
+      let k ← kind? k; let mi ← mode? mi; let mo ← mode? mo
+      pure (match transmissionAt t m k mi mo a (disp == "1") with | .ok v => shw v | .error _ => "E")
+    | "refl", [k, mi, mo, disp] =>
+      let k ← kind? k; let mi ← mode? mi; let mo ← mode? mo
+      pure (match reflectionAt t m k mi mo a (disp == "1") with | .ok v => shw v | .error _ => "E")
+    | _, _ => none
+  | _ => none
+
+def opIface (args : List String) : Option String :=
+  match args with
+  | "c" :: rest => ifaceRun cfTrig CF.ofReal (fun re im => do let re ← float? re; let im ← float? im; pure ⟨re, im⟩) showCF rest
+  | "r" :: rest => ifaceRun rfTrig id (fun re _ => float? re) showFloat rest
+  | _ => none
+end IfaceOps
+
 def route (op : String) (args : List String) : String :=
   let r : Option String :=
     match op with
     | "fermat" => opFermat args
     | "minplus" => opMinPlus args
     | "chunks" => opChunks args
+    | "iface" => opIface args
     | "raygeom" => opRayGeom args
     | "probe" => opProbe args
     | "geo" => opGeo args
